@@ -55,7 +55,7 @@ def render(spec, layout, rng):
 
     consts = {n: A.types[n] for n in A.types if A.types[n] in ("0", "1")}
     inline = layout % 2 == 0
-    must_keep = {k for k in consts if k in A.outs or any(A.types[s] == "bb_input" for s in A.succs[k])}
+    must_keep = {k for k in consts if k in A.outs or (layout % 4 >= 2 and any(A.types[s] == "bb_input" for s in A.succs[k]))}
     ins = sorted(A.inputs())
     outs = sorted(A.outputs())
     wires, body = [], []
